@@ -52,6 +52,14 @@ DropSets(n) ==
              X \in {{}, {D("99-other.conf", "foreign")}}}
   \cup {{D(n \o ".conf", ""), D(BaseOf(n) \o ".conf", "cfg-of-base-" \o BaseOf(n))}, {D(n \o ".conf", "")}}
 
+\* names with dots and further dashes: the base name is everything after the first dash
+Dotted == <<E("10-logger.v2", "exec", "healthy"), E("30-tracer.v1-beta", "exec", "healthy"), E("20-logger", "exec", "healthy")>>
+DottedDrops == {{D("logger.conf", "cfg-of-logger")},
+                {D("logger.conf", "cfg-of-logger"), D("logger.v2.conf", "cfg-of-logger.v2"), D("tracer.v1-beta.conf", "cfg-of-tracer")},
+                {D("10-logger.v2.conf", "own"), D("logger.conf", "cfg-of-logger"), D("tracer.conf", "foreign"), D("tracer.v1.conf", "foreign")}}
+\* "liar": a pre-installed plugin that registers under another name and index than its file's - it stays where its file name puts it
+Liar == <<E("10-first", "exec", "liar"), E("20-second", "exec", "healthy"), E("30-third", "exec", "healthy")>>
+
 \* execute bits; a plugin failing its synchronization at each position; stale NRI_PLUGIN_* variables in the runtime's own environment
 ExecBits == <<E("10-owner", "execu", "healthy"), E("20-group", "execg", "healthy"), E("30-other", "execo", "healthy"),
               E("40-none", "noexec", ""), E("50-all", "exec", "healthy")>>
@@ -63,7 +71,8 @@ Scenarios ==
   CASE Mode = "dirs" -> {[entries |-> d, dropins |-> {}, stale |-> FALSE] : d \in Dirs2 \cup Dirs3 \cup Small}
     [] Mode = "dropins" -> {[entries |-> <<E("20-bb", "exec", "healthy"), E("10-aa", "exec", "healthy")>>, dropins |-> da \cup db,
                              stale |-> FALSE] : da \in DropSets("10-aa"), db \in DropSets("20-bb")}
-    [] Mode = "more" -> {[entries |-> d, dropins |-> {}, stale |-> FALSE] : d \in {ExecBits} \cup FailSync}
+    [] Mode = "more" -> {[entries |-> d, dropins |-> {}, stale |-> FALSE] : d \in {ExecBits, Liar} \cup FailSync}
+                        \cup {[entries |-> Dotted, dropins |-> ds, stale |-> FALSE] : ds \in DottedDrops}
                         \cup {[entries |-> <<E("10-aa", "exec", "healthy"), E("20-bb", "exec", "healthy")>>,
                                dropins |-> {D("10-aa.conf", "cfg-of-10-aa")}, stale |-> TRUE]}
 
